@@ -7,7 +7,6 @@ import (
 	"go/types"
 	"math/big"
 	"sort"
-	"strings"
 
 	"golang.org/x/tools/go/ssa"
 )
@@ -38,6 +37,7 @@ type Frame struct {
 	InDefer     int             // >0 while running deferred calls; value = index+1 of next defer to run
 	AfterDefers func(st *State) // continuation after the defer stack has been run
 	RetTo   *Value
+	AfterSite func(st *State, rv Value)
 	Depth       int
 }
 
@@ -669,7 +669,7 @@ func (s *State) heapStore(ref *Term, root string, t types.Type, v Value) {
 // havocHeapKeyPrefix replaces every field array whose key starts with prefix.
 func (s *State) havocHeapPrefix(prefix string) {
 	for k, h := range s.Heap {
-		if k == prefix || strings.HasPrefix(k, prefix+".") || strings.HasPrefix(k, prefix+"#") {
+		if keyUnder(k, prefix) {
 			s.Heap[k] = Fresh("H$"+k, h.Sort)
 		}
 	}
